@@ -115,6 +115,8 @@ class BaseClient:
             return value.model_dump(by_alias=True, exclude_unset=True)
         if isinstance(value, list):
             return [self._convert_value(item) for item in value]
+        if isinstance(value, dict):
+            return {key: self._convert_value(item) for key, item in value.items()}
         return value
 
     def _get_files_from_variables(
